@@ -1421,6 +1421,12 @@ class GeoboxTiles:
         return range(y1, y2 + 1), range(x1, x2 + 1)
 
     def _tiles_from_pix_bbox(self, bbox: BoundingBox) -> Iterator[Tuple[int, int]]:
+        NY, NX = self._gbox.shape.yx
+        (xmin, xmax), (ymin, ymax) = bbox.range_x, bbox.range_y
+        if xmax <= 0 or xmin >= NX or ymax <= 0 or ymin >= NY:
+            # shares no pixels with the image, range_from_bbox would clamp it
+            # to the nearest edge tiles
+            return
         yy, xx = self.range_from_bbox(bbox)
         yield from itertools.product(yy, xx)
 
